@@ -21,7 +21,7 @@ ASSUMPTIONS = ["covering bands: rectangles 1e-6 rel (LP certificates), ellipsoid
                "Auer: a round is judged only if every first-stage membership is decisive"]
 N = {"quick": 190, "thorough": 3500}
 VARS = ["PaVeBa", "PaVeBaGP-IH", "PaVeBaGP-DE", "PartialGP-rect", "PartialGP-ell", "VOGP", "EpsilonPAL", "Auer", "Auer-emp", "Auer-emp", "VOGP"]
-REQUIRE = {"quick": {"must_admit": 300, "must_hold": 1500, "must_useful": 50, "must_not_useful": 50, "auer_held_back": 5, "many_design_runs": 6, "auer_blocked_only_by_per_objective_sum": 10, "runs": 150, "vogp_ad_runs": 10,
+REQUIRE = {"quick": {"must_admit": 300, "must_hold": 1500, "must_useful": 50, "must_not_useful": 50, "auer_held_back": 5, "many_design_runs": 6, "eps_zero_runs": 30, "eps_zero_auer_rounds": 100, "auer_blocked_only_by_per_objective_sum": 10, "runs": 150, "vogp_ad_runs": 10,
                      **{f"must_admit::{v}": 8 for v in set(VARS)}, **{f"must_hold::{v}": 20 for v in set(VARS)}}}
 TIMEOUT = {"quick": 1500, "thorough": 7200}
 
@@ -63,10 +63,16 @@ def directed_d9(mon):
                 runchecks.check_admit(mon, tr, st)
 
 
-def ad_run(mon, rng):
+def ad_run(mon, rng, deep=False):
     """VOGP_AD on a user-defined continuous problem (real GP): the same reference transition on tree nodes"""
-    case, order = runs.make_ad_case(rng, eps=float(rng.choice([0.1, 0.15, 0.3])), depth_max=int(rng.choice([2, 3])), d=2)
-    case["max_rounds"] = 110
+    if deep:  # 1-D, depth 6-10, small exact numpy GP (seeded/Z02: gate decided by a cell-side tolerance)
+        case, order = runs.make_ad_case(rng, eps=float(rng.choice([0.1, 0.2, 0.3])), depth_max=int(rng.integers(6, 11)), d=1)
+        case["model"] = "numpy-gp"
+        case["max_rounds"] = 300
+        mon.count("deep_ad_runs")
+    else:
+        case, order = runs.make_ad_case(rng, eps=float(rng.choice([0.1, 0.15, 0.3])), depth_max=int(rng.choice([2, 3])), d=2)
+        case["max_rounds"] = 110
     tr = runs.run_ad_case(case, order, mon)
     mon.count("runs")
     mon.count("vogp_ad_runs")
@@ -88,6 +94,28 @@ def directed_auer_emp(mon, rng):
     for st in tr.steps:
         if st["crash"] is None:
             runchecks.check_admit(mon, tr, st)
+
+
+def directed_eps_zero(mon, rng):
+    """epsilon exactly 0 (exact identification) is inside the quantifier: the same reference transition must hold, in particular
+    Auer still holds passing designs back while an undecided design needs them — seeded/Z04-auer-no-holdback-when-eps-zero"""
+    variant = str(rng.choice(["Auer", "Auer", "Auer-emp", "PaVeBa", "VOGP", "EpsilonPAL", "PaVeBaGP-IH"]))
+    K = int(rng.integers(3, 8))
+    case, order = runs.make_case(rng, variant, K=K, m=int(rng.choice([2, 3])), scale=1.0, ds_family=str(rng.choice(["random", "chain"])), eps=0.0,
+                                 contraction=float(rng.choice([2, 4, 8])), noise_var=float(rng.choice([0.1, 1.0])), batch=1)
+    if variant == "Auer-emp":
+        case["hetero"] = (10 ** rng.uniform(-0.7, 0.7, size=(K, case["m"]))).tolist()
+    case["max_rounds"] = 60
+    tr = runs.run_case(case, order, mon, max_extra_steps=0)
+    mon.count("runs")
+    mon.count("eps_zero_runs")
+    if tr.ctor_crash or tr.crashed:
+        mon.count("eps_zero_runs_crashed")
+    for st in tr.steps:
+        if st["crash"] is None:
+            runchecks.check_admit(mon, tr, st)
+            if variant.startswith("Auer"):
+                mon.count("eps_zero_auer_rounds")
 
 
 def directed_many_designs(mon, rng):
@@ -112,8 +140,11 @@ def shard(mon, tier, rng, shard_no, nshards):
             directed_many_designs(mon, rng)
     for _ in range(1 if tier == "quick" else 6):
         ad_run(mon, rng)
+        ad_run(mon, rng, deep=True)
     for _ in range(4 if tier == "quick" else 20):
         directed_auer_emp(mon, rng)
+    for _ in range(3 if tier == "quick" else 15):
+        directed_eps_zero(mon, rng)
     if shard_no == 0:
         directed_d9(mon)
     n = max(len(VARS), N[tier] // nshards)
